@@ -1,21 +1,25 @@
 ------------------------------ MODULE ProxyMsg ------------------------------
-(* C03.  One HTTP exchange through easegress: client -> net/http server -> mux -> RequestAdaptor?  *)
-(* -> Proxy -> backend and back through Transport -> compression -> FetchPayload ->               *)
-(* ResponseAdaptor? -> mux write-out -> client.  One action per stage of the code path (the        *)
+(* C03.  HTTP exchanges through easegress: client -> net/http server -> mux -> RequestAdaptor?     *)
+(* -> Proxy -> backend and back through Transport -> compression -> FetchPayload -> (memory cache)  *)
+(* -> ResponseAdaptor? -> mux write-out -> client.  One action per stage of the code path (the      *)
 (* stage operators and the contract are in ProxyMsgDefs).                                          *)
 (*                                                                                                *)
 (* A behaviour explores ONE direction for one scenario of that direction (the two directions are   *)
 (* independent in the code: nothing of the request except its method HEAD and its Accept-Encoding  *)
 (* influences the response path; both are scenario fields of the response direction), the other    *)
-(* direction runs its default scenario.  TLC enumerates every scenario (Init) and checks that the  *)
-(* completed exchange satisfies every clause of the contract.                                      *)
+(* direction runs its default scenario.  A response scenario with a memory cache is a SEQUENCE of   *)
+(* RespK identical requests to the same proxy instance: the first one is answered by the backend    *)
+(* and stored (unless it is a stream or a failure), the following ones are answered from the cache  *)
+(* entry.  TLC enumerates every scenario (Init) and checks that EVERY completed exchange satisfies  *)
+(* every clause of the contract.                                                                    *)
 (*                                                                                                *)
 (* Fixed = the defects modelled as repaired.  The registered model-checking run uses the repaired  *)
-(* model (all five); runs with one defect left in are expected to VIOLATE the contract - they are   *)
-(* the design-level leads which the harness reproduces on the real code.                           *)
+(* model (all of them); runs with one defect left in are expected to VIOLATE the contract - they    *)
+(* are the design-level leads which the harness reproduces on the real code ("CLONE" is a negative  *)
+(* control: the pinned code does copy the header of a cache entry).                                 *)
 EXTENDS ProxyMsgDefs
 
-CONSTANTS Fixed,      \* subset of {"F5", "F6", "F7", "HEAD", "METRIC"}
+CONSTANTS Fixed,      \* subset of AllFixed
           ReqSpace,   \* request scenarios explored  (ReqScn, or ReqScnQuick)
           RespSpace   \* response scenarios explored (RespScn, or RespScnQuick)
 
@@ -24,18 +28,22 @@ VARIABLES dir,   \* "req" | "resp": the direction explored
           ps,    \* response scenario
           pc,    \* next stage
           m,     \* the message in flight (shape depends on the stage)
-          bs,    \* the requests the backends received so far (one per attempt)
-          att    \* number of the current attempt
+          bs,    \* the requests the backends received so far for the current request (one per attempt)
+          att,   \* number of the current attempt
+          k,     \* number of the current request in the sequence
+          mc,    \* the entry of the pool's memory cache (NoEntry: nothing stored)
+          hit    \* the current request is answered from the cache
 
-vars == <<dir, rs, ps, pc, m, bs, att>>
+vars == <<dir, rs, ps, pc, m, bs, att, k, mc, hit>>
 
 Init ==
-    \/ /\ dir = "req" /\ rs \in ReqSpace /\ ps = DefaultRespScn
-       /\ pc = "ClientSend" /\ m = [none |-> TRUE] /\ bs = {} /\ att = 1
-    \/ /\ dir = "resp" /\ rs = DefaultReqScn /\ ps \in RespSpace       \* the default request, in one step
-       /\ pc = "BackendSend" /\ m = [none |-> TRUE] /\ bs = RunReq(rs, Fixed) /\ att = 1
+    /\ k = 1 /\ mc = NoEntry /\ hit = FALSE /\ m = [none |-> TRUE] /\ att = 1
+    /\ \/ /\ dir = "req" /\ rs \in ReqSpace /\ ps = DefaultRespScn
+          /\ pc = "ClientSend" /\ bs = {}
+       \/ /\ dir = "resp" /\ rs = DefaultReqScn /\ ps \in RespSpace
+          /\ pc = "CacheLookup" /\ bs = {}
 
-Step(from, to, msg) == pc = from /\ pc' = to /\ m' = msg /\ UNCHANGED <<dir, rs, ps, bs, att>>
+Step(from, to, msg) == pc = from /\ pc' = to /\ m' = msg /\ UNCHANGED <<dir, rs, ps, bs, att, k, mc, hit>>
 
 ClientSend      == Step("ClientSend", "MuxFetch", ClientReq(rs))
 MuxFetch        == Step("MuxFetch", "ReqAdaptor", S_Server(m, rs))
@@ -48,24 +56,41 @@ ProxyPrepare    == /\ pc = "ProxyPrepare"
                       IF ~b.reached THEN pc' = "MuxWrite" /\ m' = Failure500 /\ UNCHANGED <<bs, att>>
                       ELSE /\ bs' = bs \cup {b}
                            /\ IF att <= rs.fails THEN pc' = "ProxyPrepare" /\ att' = att + 1 /\ m' = m      \* retry
-                              ELSE IF dir = "resp" THEN pc' = "BackendSend" /\ m' = m /\ att' = att
                               ELSE pc' = "ClientRecv" /\ m' = RunResp(ps, Fixed) /\ att' = att          \* default response, in one step
-                   /\ UNCHANGED <<dir, rs, ps>>
+                   /\ UNCHANGED <<dir, rs, ps, k, mc, hit>>
+(* ServerPool.handle: buildResponseFromCache first.  (response direction: the default request is
+   delivered in one step when the backend is asked) *)
+CacheLookup     == /\ pc = "CacheLookup"
+                   /\ IF ps.cache /\ ~mc.none
+                      THEN hit' = TRUE /\ bs' = {} /\ m' = FromCache(mc) /\ pc' = "RespAdaptor"
+                      ELSE hit' = FALSE /\ bs' = RunReq(rs, Fixed) /\ m' = m /\ pc' = "BackendSend"
+                   /\ UNCHANGED <<dir, rs, ps, att, k, mc>>
 BackendSend     == Step("BackendSend", "TransportDecode", BackendResp(ps))
 TransportDecode == Step("TransportDecode", "ProxyCompress", S_Transport(m, ps))
 ProxyCompress   == Step("ProxyCompress", "RespFetch", S_Compress(m, ps, Fixed))
-RespFetch       == Step("RespFetch", "RespAdaptor", S_Fetch(m, ps, Fixed))
-RespAdaptor     == Step("RespAdaptor", "MuxWrite", S_RespAdaptor(m, ps, Fixed))
-MuxWrite        == Step("MuxWrite", "ClientRecv", S_Write(m, ps))
-ClientRecv      == pc = "ClientRecv" /\ pc' = "done" /\ UNCHANGED <<dir, rs, ps, m, bs, att>>
+RespFetch       == Step("RespFetch", "CacheStore", S_Fetch(m, ps, Fixed))
+(* ServerPool.doHandle: memoryCache.Store after buildResponse succeeded *)
+CacheStore      == /\ pc = "CacheStore" /\ pc' = "RespAdaptor"
+                   /\ mc' = IF Storable(m, ps) THEN EntryOf(m) ELSE mc
+                   /\ UNCHANGED <<dir, rs, ps, m, bs, att, k, hit>>
+(* the filters behind the Proxy; for a hit they may write into the entry (negative control) *)
+RespAdaptor     == /\ pc = "RespAdaptor" /\ pc' = "MuxWrite" /\ m' = S_RespAdaptor(m, ps, Fixed)
+                   /\ mc' = IF hit THEN AfterHit(mc, m', Fixed) ELSE mc
+                   /\ UNCHANGED <<dir, rs, ps, bs, att, k, hit>>
+MuxWrite        == Step("MuxWrite", "ClientRecv", S_Write(m, ps, Fixed))
+ClientRecv      == pc = "ClientRecv" /\ pc' = "done" /\ UNCHANGED <<dir, rs, ps, m, bs, att, k, mc, hit>>
+(* the next identical request of the sequence *)
+NextReq         == /\ pc = "done" /\ dir = "resp" /\ k < Reqs(ps)
+                   /\ k' = k + 1 /\ pc' = "CacheLookup" /\ m' = [none |-> TRUE] /\ bs' = {} /\ hit' = FALSE
+                   /\ UNCHANGED <<dir, rs, ps, att, mc>>
 
-Next == ClientSend \/ MuxFetch \/ ReqAdaptor \/ ProxyPrepare \/ BackendSend \/ TransportDecode
-        \/ ProxyCompress \/ RespFetch \/ RespAdaptor \/ MuxWrite \/ ClientRecv
+Next == ClientSend \/ MuxFetch \/ ReqAdaptor \/ ProxyPrepare \/ CacheLookup \/ BackendSend \/ TransportDecode
+        \/ ProxyCompress \/ RespFetch \/ CacheStore \/ RespAdaptor \/ MuxWrite \/ ClientRecv \/ NextReq
 
 Spec == Init /\ [][Next]_vars
 
 (* the exchange once it is complete *)
-X == [cfg |-> Cfg(rs, ps), c |-> CAbs(ClientReq(rs)), bs |-> bs, times |-> Cardinality(bs),
+X == [cfg |-> Cfg(rs, ps, k), c |-> CAbs(ClientReq(rs)), bs |-> bs, times |-> Cardinality(bs),
       br |-> BRAbs(BackendResp(ps), ps), cr |-> m]
 
 (* ---- the property ---- *)
@@ -77,13 +102,16 @@ PathUnchanged == Done => \A b \in bs : C_Path(X, b) /\ C_Query(X, b) /\ C_Method
 BodyUnchanged == Done => \A b \in bs : C_ReqBody(X, b)
 HopStripped   == Done => \A b \in bs : C_ReqHop(X, b) /\ C_ReqE2E(X, b)
 HostRule      == Done => \A b \in bs : C_Host(X, b)
-StatusKept    == Done /\ C_Reach(X) => C_Status(X)
-ContentKept   == Done /\ C_Reach(X) /\ C_Status(X) => C_Content(X) /\ C_RespE2E(X)
-WellFramed    == Done => C_Framed(X)
+StatusKept    == Done /\ C_Reach(X) /\ ~ps.short => C_Status(X)
+ContentKept   == Done /\ C_Reach(X) /\ ~ps.short /\ C_Status(X) => C_Content(X) /\ C_RespE2E(X)
+WellFramed    == Done /\ ~ps.short => C_Framed(X)
+NoTruncatedSuccess == Done => ~C_Truncated(X)
+(* a hit is answered like the miss before it *)
+HitLikeMiss   == Done /\ hit => X.cr = RunResp(ps, Fixed)
 
 (* the step-wise machine computes the same exchange as the composed stage operators, which the
    vector generator (ProxyMsg_Gen) uses *)
-Composed      == Done => X = Exchange(rs, ps, Fixed)
+Composed      == Done => X = ExchangeK(rs, ps, Fixed, k)
 
-AllFixed == {"F5", "F6", "F7", "HEAD", "METRIC"}
+AllFixed == {"F5", "F6", "F7", "HEAD", "METRIC", "ABORT", "CLONE"}
 =============================================================================
